@@ -2,6 +2,8 @@
 
 spec/BQueue.tla                  BufferedChannelQueue at hook grain (Offer, loader with the item it holds, consumers, wake channel, lock)
 spec/trace/Trace_BQueueAbs.tla   the abstract two-part FIFO of the statement; TLC searches linearisation points for recorded inv/res histories
+spec/gen/Gen_BQueueSched.tla     TLC writes one schedule per edge of BQueue.tla's state graph; drv c07 direct replays each on the real goroutines in lockstep
+spec/trace/Trace_BQueueDirect.tla judges the outcome of every directed run (bound, exactly once, nothing stranded, producer order)
 spec/trace/Trace_BQueueHook.tla  binds BQueue.tla itself to the code: hook-level traces of the real queue must be behaviours of the model (advisory: MODEL-DRIFT)
 """
 import json
@@ -14,7 +16,8 @@ LEVEL = "model_checking"
 RULE = ("model: (C,B) in {(1,1),(1,0),(2,1),(1,2),(0,1)} with 2 producers x 2 offers and 2 consumers x 2 take/poll calls, every interleaving of Offer, "
         "loader passes and consumers at hook grain (safety); C=1,B=2 with looping consumers (liveness: every accepted item is delivered); real runs: rounds of "
         "1-3 producers and 1-3 consumers on 7 (C,B) configurations and 3 loader intervals, mixing Offer/Put and Poll/TakeWithTimeout/<-GetChannel(), with the "
-        "library's hook points yielding/sleeping (seeded) to widen windows, followed by a drain that must retrieve everything; plus plain ChannelQueue rounds. "
+        "library's hook points yielding/sleeping (seeded) to widen windows, followed by a drain that must retrieve everything; plus plain ChannelQueue rounds; "
+        "directed runs: every edge of the model's state graph (1-2 producers, 1-2 consumers, C=B=1) as a schedule replayed in lockstep on the real goroutines. "
         "non-trivial = round with >= 2 goroutines; distinct = distinct recorded rounds (seeded)")
 
 
@@ -89,6 +92,60 @@ def hook_binding(ctx, tla, quick):
     ctx.cov["evaluations"] += events
 
 
+SCHED = {"p1c1": ["--producers", 1, "--noffer", 2, "--consumers", 1], "p2c1": ["--producers", 2, "--noffer", 1, "--consumers", 1],
+         "p1c2": ["--producers", 1, "--noffer", 2, "--consumers", 2]}
+
+
+def directed(ctx, tla, quick):
+    """Direction A: the transition cover of BQueue.tla (one schedule per state-graph edge) replayed in lockstep on the real queue."""
+    total = 0
+    for name in (["p1c1", "p2c1"] if quick else ["p1c1", "p2c1", "p1c2"]):
+        sf = os.path.join(ctx.scratch, "c07.sched.%s.ndjson" % name)
+        r = ctx.tlc("Gen_BQueueSched", "Gen_BQueueSched_%s.cfg" % name, workers=1, timeout=900, cwd=tla, env_extra={"VERIF_EMIT": sf})
+        if not r.completed or not os.path.exists(sf):
+            core.log(r.text[-2000:])
+            raise core.Inconclusive("Gen_BQueueSched %s did not finish" % name)
+        ctx.add_states(r)
+        of = os.path.join(ctx.scratch, "c07.direct.%s.ndjson" % name)
+        p, crash = ctx.drv_crashable(["c07", "direct", "--in", sf, "--out", of, "--c", 1, "--b", 1] + SCHED[name], timeout=1500)
+        if crash:
+            ctx.report("directed schedule: process crash: %s in %s" % (crash["panic"], crash["frame"].split("(")[0]), "the driver died while replaying %s schedules: %s" % (name, crash["stderr"][-1500:]),
+                       {"component": "c07-direct", "cfg": name, "crash": crash})
+            continue
+        rows = core.read_ndjson(of)
+        if not rows:
+            raise core.Inconclusive("no directed run recorded for %s" % name)
+        j = ctx.tlc("Trace_BQueueDirect", workers=1, timeout=900, cwd=tla, env_extra={"VERIF_TRACE": of}, heap="6g")
+        cons = j.printed("CONSUMED")
+        if not cons:
+            core.log(j.text[-2000:])
+            raise core.Inconclusive("Trace_BQueueDirect did not finish")
+        a, b = [int(x) for x in cons[-1].split(",")]
+        mism = [(int(x.split(",")[0]), x.split(",", 1)[1].strip().strip('"')) for x in j.printed("MISMATCH")]
+        if a != b and len(mism) < 60:
+            raise core.Inconclusive("Trace_BQueueDirect consumed %d of %d lines" % (a, b))
+        total += a
+        drifted = [e for e in rows if e["drift"]]
+        for e in drifted[:2]:
+            ctx.drift.append("directed schedule %s#%d: %s" % (name, e["id"], e["drift"]))
+        if len(drifted) > 2:
+            ctx.drift.append("directed schedules %s: %d of %d left the model's schedule" % (name, len(drifted), len(rows)))
+        sched = None
+        for ln, why in mism[:6]:
+            e = rows[ln - 1]
+            if sched is None:
+                sched = [json.loads(json.loads(x)) if x.startswith('"') else json.loads(x) for x in open(sf)]
+            steps = [[s["a"], s["t"], s["k"]] for s in sched[e["id"] - 1]["steps"]]
+            ctx.report("directed schedule: %s [%s]" % (why, name), "schedule %s#%d (%s) replayed on the real queue: %s; outcome %s" % (
+                name, e["id"], " ".join("%s(%s)" % (a_, t) for a_, t, k in steps), why, json.dumps({k: e[k] for k in ("accepted", "delivered", "drain", "left", "maxch", "maxpool", "drift")})),
+                {"component": "c07-direct", "cfg": name, "schedule": steps, "outcome": e})
+    ctx.cov["evaluations"] += total
+    ctx.cov["traces_validated_against_impl"] += total
+    ctx.cov["distinct_nontrivial"] += total
+    ctx.notes.append("direction A: %d schedules = every edge of BQueue.tla's state graph for the small configurations, replayed in lockstep on the real goroutines "
+                     "(producers, consumers and the library's loader parked at every hook point), real channel/overflow contents compared with the model state after every step" % total)
+
+
 def run(ctx, replay=None):
     tla = ctx.stage_specs()
     quick = ctx.tier == "quick"
@@ -99,6 +156,7 @@ def run(ctx, replay=None):
             core.log(r.text[-3000:])
             raise core.Inconclusive("BQueue model: %s does not hold" % cfg)
         ctx.add_states(r)
+    directed(ctx, tla, quick)
     p, crash = ctx.drv_crashable(["c07", "record", "--rounds", 240 if quick else 6000, "--out", os.path.join(ctx.scratch, "c07.trace")], timeout=3000)
     if crash:
         ctx.report("process crash: %s in %s" % (crash["panic"], crash["frame"].split("(")[0]), "the driver died: %s" % crash["stderr"][-1500:], {"component": "c07", "crash": crash})
@@ -166,5 +224,5 @@ MANIFEST = {
             "of the statement; TLC searches the linearisation points. BQueue.tla itself is bound to the code by hook-level trace validation (Trace_BQueueHook: every hook point, with the "
             "state logged inside the lock, is one of the model's actions; lock-free steps are silent steps of the model).",
     "note": "Trusted: TLC, the event log. Real interleavings are sampled (seeded, hook-perturbed), not enumerated; the model's are exhaustive within 2x2 threads.",
-    "technique": "TLA+ hook-grain model checked by TLC (safety+liveness) + TLC linearisability-style trace validation of recorded histories against the abstract FIFO",
+    "technique": "TLA+ hook-grain model checked by TLC (safety+liveness); TLC transition-cover schedules replayed in lockstep on the real goroutines (director); hook-level and abstract trace validation by TLC",
 }
